@@ -9,7 +9,6 @@ pub mod codecs;
 pub mod custom;
 pub mod fuzzdec;
 pub mod gen;
-#[cfg(feature = "kmer-tables")]
 pub mod kmers;
 pub mod oracle;
 pub mod progs;
